@@ -50,7 +50,9 @@ impl CleartextSignedMessage {
         key_pw: &Password,
     ) -> Result<Self>
 where {
-        let mut bytes = text.as_bytes();
+        // sign what `verify` hashes: trailing blanks of every line removed
+        let trimmed = dash_unescape_and_trim(&dash_escape(text));
+        let mut bytes = trimmed.as_bytes();
         let signature_text = NormalizedReader::new(&mut bytes, LineBreak::Crlf);
         let hash = config.hash_alg;
         let signature = config.sign(key, key_pw, signature_text)?;
@@ -94,7 +96,9 @@ where {
     where
         F: FnOnce(&str) -> Result<Vec<Signature>>,
     {
-        let signature_text = normalize_lines(text, LineBreak::Crlf);
+        // sign what `verify` hashes: trailing blanks of every line removed
+        let trimmed = dash_unescape_and_trim(&dash_escape(text));
+        let signature_text = normalize_lines(&trimmed, LineBreak::Crlf);
 
         let raw_signatures = signer(&signature_text[..])?;
         let mut hashes = HashSet::new();
